@@ -125,7 +125,7 @@ def step (s : DSt) (line : String) : DSt × Option String :=
   | ["nestedreplay"] =>
     let recs : List (Off × Rec) := match (getInst s).1 with
       | .mem m => m.events | .sql q => q.rows.map (fun row => (decimal row.1, row.2)) | .ds d => d.msgs.map (fun r => ([], r))
-    (s, some s!"nestedreplay end=nil outer={showRecs recs} inner={showRecs recs}")
+    (s, some s!"nestedreplay end=nil outer={showRecs recs} inner={showRecs (recs.drop 1)}")
   | ["read", f, l] =>
     match resolveOff s f with
     | none => (s, some "read skip")
